@@ -141,7 +141,8 @@ static ChildResult run_in_child(const Plan& p, const Cfg& c, u64 sseed, bool wan
     fflush(stdout); fflush(stderr);
     pid_t pid = fork();
     if (pid == 0) {
-        freopen(errpath.c_str(), "w", stderr);
+        if (!freopen(errpath.c_str(), "w", stderr)) _exit(5);
+        alarm(120);
         sim::init(env::MAXT);
         Cfg c2 = c; c2.keep_log = want_log;
         Stats agg; u64 lh = 0;
@@ -174,6 +175,7 @@ static ChildResult run_in_child(const Plan& p, const Cfg& c, u64 sseed, bool wan
         if (err.find("AddressSanitizer") != std::string::npos) { kind = "asan"; size_t p2 = err.find("ERROR: AddressSanitizer: "); if (p2 != std::string::npos) { size_t e = err.find_first_of(" \n", p2 + 25); kind = "asan-" + err.substr(p2 + 25, e - (p2 + 25)); } }
         else if (err.find("runtime error") != std::string::npos) kind = "ubsan";
         else if (err.find("Assertion") != std::string::npos) kind = "assert";
+        else if (WIFSIGNALED(status) && WTERMSIG(status) == SIGALRM) kind = "hang";
         else if (WIFSIGNALED(status)) kind = strf("signal-%d", WTERMSIG(status));
         cr.cls = "crash/" + kind; cr.msg = "the library did not survive the history (" + why + "): " + diag;
         return cr;
@@ -308,6 +310,7 @@ int main(int argc, char** argv) {
         u64 rs = run_seed(c.seed, c.prop, (u64)r);
         Plan p = gen::make(c.prop, rs, (int)r);
         printf("START %ld\n", r); fflush(stdout);
+        alarm(120);        // uninstrumented builds have no step budget: a call that never returns ends the worker, the driver replays the run
         u64 lh = 0; bool nt = false; int ops_run = 0;
         Finding f = check_plan(p, c, rs, agg, &lh, &nt, &ops_run);
         ++done; ops_total += ops_run;
